@@ -20,6 +20,7 @@ MANIFEST = dict(
           "the quantities fed to round()/hash() are equal as reals, so hash(a) == hash(b) and sets / dicts deduplicate them. The tolerance contracts of the underlying == (within eps/1000 equal, beyond 4 eps unequal) are those of C05."),
     note=("A4: collisions of Python's tuple hash are ignored (that is what makes 'different sets hash differently' unprovable and not claimed). ConvexPolygon / ConvexPolyhedron equality is defined as hash equality; their order-freeness over vertex / face "
           "permutations, near-miss inequality and len(set(...)) are a labelled bounded stand-in; so are the int / float / Fraction coordinate variants of all seven types and Vector (==, equal hashes, one set element) (not counted as proved). Rounding boundaries of the 10-digit hash are excluded by the property."),
+    technique='contract-based deductive verification of == and hash in the hash world (round = identity, hash uninterpreted; z3) + labelled bounded comparison of int / float / Fraction representations',
     design_ref="DESIGN.md section 9 (C08)",
 )
 EXPLANATION = "== contracts against the denotations + hash-world obligations 'same denotation => equal hashed quantities' for the six flat types"
